@@ -218,6 +218,65 @@ def oracle(p):
             return [[r[0]] for r in spv], [[r[0]] * D for r in spv]
         return [list(r) for r in spv], spv  # batch
 
+    # --- integer data: the spacing keeps its fractional value (the data are cast to float, not the spacing to int)
+    if p.get("stage", "all") in ("all", "edge"):
+        for dt in (torch.int64, torch.int32, torch.uint8, torch.int16):
+            for D in (2, 3):
+                shape_t = (4, 5) if D == 2 else (3, 4, 5)
+                idata = torch.tensor([rng.randint(0, 9) for _ in range(2 * math.prod(shape_t))], dtype=dt).reshape((2, 1) + shape_t)
+                for spacing in (0.5, 2.5, [0.25, 1.5]):
+                    for mode in FD_MODES[:4]:
+                        bump("integer-data")
+                        sd = rng.randrange(D)
+                        try:
+                            got = finite_differences(idata, sd, mode=mode, spacing=spacing)
+                            want = finite_differences(idata.double(), sd, mode=mode, spacing=spacing)
+                            if not got.is_floating_point() or not bool(torch.isfinite(got).all()) or float((got.double() - want).abs().max()) > 1e-5:
+                                fail("C12:finite_differences:integer-data-spacing",
+                                     f"{dt} data of shape {tuple(idata.shape)}, mode {mode}, spacing {spacing}: result differs from the result on the same data "
+                                     f"as float (max {float(got.double().abs().max())} vs {float(want.abs().max())}): spacing converted to the integer dtype",
+                                     dtype=str(dt), spacing=spacing, mode=mode)
+                        except Exception as e:  # noqa
+                            fail("C12:finite_differences:integer-data:raises", f"{dt} {mode} spacing {spacing}: {type(e).__name__}: {str(e)[:120]}", dtype=str(dt))
+                    for mode in FD_MODES:
+                        bump("integer-data")
+                        try:
+                            sp = spacing if not isinstance(spacing, list) else [[v] * D for v in spacing]
+                            got = spatial_derivatives(idata, which=["x", "y"], mode=mode, spacing=sp)
+                            want = spatial_derivatives(idata.double(), which=["x", "y"], mode=mode, spacing=sp)
+                            if any(float((got[k_].double() - want[k_]).abs().max()) > 1e-5 or not bool(torch.isfinite(got[k_]).all()) for k_ in want):
+                                fail("C12:spatial_derivatives:integer-data-spacing", f"{dt} data, mode {mode}, spacing {spacing}: differs from the float result",
+                                     dtype=str(dt), spacing=spacing, mode=mode)
+                        except Exception as e:  # noqa
+                            fail("C12:spatial_derivatives:integer-data:raises", f"{dt} {mode} spacing {spacing}: {type(e).__name__}: {str(e)[:120]}", dtype=str(dt))
+
+    # --- lie_bracket(mode='bspline') on affine coefficient fields: B u - A v with u, v evaluated on the output grid
+    if p.get("stage", "all") in ("all", "edge"):
+        from deepali.core.bspline import evaluate_cubic_bspline
+        for i_ in range(6):
+            D = [2, 3][i_ % 2]
+            nn = tuple(rng.randint(4, 7) for _ in range(D))          # coefficient grid, tensor order
+            stride = tuple(rng.randint(1, 3) for _ in range(D)) if i_ % 3 else None
+            hs = [rng.choice([0.5, 1.0, 2.0]) for _ in range(D)]
+            A = [[dy(rng) for _ in range(D)] for _ in range(D)]
+            Bm = [[dy(rng) for _ in range(D)] for _ in range(D)]
+            idx = torch.meshgrid(*[torch.arange(k, dtype=torch.float64) - 1 for k in nn], indexing="ij")
+            P = [idx[D - 1 - d] * hs[d] for d in range(D)]           # physical control point positions (x, y, z)
+            u = affine_field(A, [0.5] * D, P).unsqueeze(0)
+            v = affine_field(Bm, [-0.25] * D, P).unsqueeze(0)
+            desc = {"D": D, "coefficients": list(nn), "stride": stride, "spacing": hs}
+            bump(f"lie-bracket-bspline:D{D}")
+            try:
+                w = FL.lie_bracket(v, u, mode="bspline", spacing=hs, **({} if stride is None else {"stride": stride}))
+                ue = evaluate_cubic_bspline(u, stride=stride or 1)
+                ve = evaluate_cubic_bspline(v, stride=stride or 1)
+                want = torch.einsum("ik,nk...->ni...", torch.tensor(Bm, dtype=torch.float64), ue) - \
+                    torch.einsum("ik,nk...->ni...", torch.tensor(A, dtype=torch.float64), ve)
+                if tuple(w.shape) != tuple(want.shape) or float((w - want).abs().max()) > 1e-9 * (1 + float(want.abs().max())):
+                    fail(f"C12:lie_bracket:bspline:D{D}", f"{desc}: Lie bracket of affine coefficient fields differs from B u - A v on the evaluated grid", case=desc)
+            except Exception as e:  # noqa
+                fail(f"C12:lie_bracket:bspline:D{D}:raises", f"{desc}: {type(e).__name__}: {str(e)[:140]}", case=desc)
+
     # --- core.image.conv1d with padding modes (used by the prewitt / sobel cross-axis smoothing): same-size correlation with
     #     zero / replicated / reflected boundary values, along every tensor axis
     if p.get("stage", "all") in ("all", "edge"):
